@@ -71,6 +71,8 @@ func main() {
 		os.Exit(raceMain(os.Args[2:]))
 	case "raceworker":
 		raceWorker(os.Args[2:])
+	case "lexprobe":
+		os.Exit(lexProbeMain())
 	}
 }
 
